@@ -13,6 +13,7 @@ JUDGED = {"track", "heading", "selected_heading", "wind_direction", "roll", "lat
 
 def check(run):
     res = dp.decode_pass(run, want={"c08"})
+    samples = dp.first_events(res, "c08.ndjson", n=3, pred=lambda e: any(l["k"] in JUDGED for l in e["leaves"]))
     rejected, n_events, results = dp.validate_parts(run, res, "trace/Trace_Ranges", "c08.ndjson", max_lines=150000)
     st = res["stats"]
     per = Counter()
@@ -20,8 +21,10 @@ def check(run):
         clause, key = (extra + ["?", "?"])[:2]
         hb = dp.header_bits(ev["hex"])
         bad = [lf for lf in ev["leaves"] if lf["k"] == key]
-        sig = {"clause": clause, "key": key, "df": hb["df"], "tc": hb["tc"]}
-        per[(clause, key, hb["df"], hb["tc"])] += 1
+        path = bad[0]["p"] if bad else key
+        tc = hb["tc"] if hb["df"] in (17, 18) else -1
+        sig = {"clause": clause, "key": key, "path": path, "df": hb["df"], "tc": tc}
+        per[(clause, path, hb["df"], tc)] += 1
         run.report(sig, {"frame_hex": ev["hex"], "shape": ev["cls"], "index": ev["i"], "leaves_of_key": bad[:4],
                          "spec": "Ranges.tla: LeafOk (domain of the key; lo = floor(x*s), hi = ceil(x*s))",
                          "reproduce": f"{res['exe']} probe {ev['hex']}"})
@@ -32,7 +35,6 @@ def check(run):
     judged_seen = {k: n for k, n in leaf_keys.items() if k in JUDGED}
     unjudged = {p: [n, kinds] for p, (n, kinds) in keys.items()
                 if (p.split(".")[-1] not in JUDGED) and ("n" in kinds or "big" in kinds or "nf" in kinds)}
-    samples = dp.first_events(res, "c08.ndjson", n=3, pred=lambda e: any(l["k"] in JUDGED for l in e["leaves"]))
     run.cov.update({
         "evaluations": st["leaves_total"],
         "distinct_nontrivial": st["distinct_leaves"],
@@ -59,7 +61,7 @@ def check(run):
         "numeric_keys_not_judged": unjudged,
         "all_paths": len(keys),
         "rejected_events": len(rejected),
-        "rejected_per_clause_key_df_tc": {"/".join(map(str, k)): v for k, v in sorted(per.items())},
+        "rejected_per_clause_path_df_tc": {"/".join(map(str, k)): v for k, v in sorted(per.items())},
         "traces_validated_against_impl": len(results),
         "wall": {k: res[k] for k in ("mc_wall", "gen_wall", "driver_wall", "pass_wall")},
     })
